@@ -32,6 +32,7 @@ type AtCall struct {
 	Clause Clause
 	// ghost: Target = ghost var, Expr = new value
 	Target string
+	Optional bool // `at call?`: need not match a call site
 }
 
 type Emit struct {
@@ -388,11 +389,18 @@ func (cs *ContractSet) parseContractFile(path, pkgPath string, external bool) er
 			case "at":
 				// at call <callee-substring>: assert {label} expr
 				// at call <callee-substring>: ghost name = expr
+				// `at call? X: ...` - optional: the clause speaks about a call the code need not make (e.g. the lossy variant
+				// of an API); every other at-call clause must match a call site, or the contract is rejected
+				optional := false
+				if strings.HasPrefix(rest, "call?") {
+					optional = true
+					rest = "call" + strings.TrimPrefix(rest, "call?")
+				}
 				m := regexp.MustCompile(`^call\s+(\S+?):\s*(assert|lemma|ghostpre|ghost)\s+(.*)$`).FindStringSubmatch(rest)
 				if m == nil {
 					return fail(l, "bad at-call clause")
 				}
-				ac := AtCall{Callee: m[1], Kind: m[2]}
+				ac := AtCall{Callee: m[1], Kind: m[2], Optional: optional}
 				body := m[3]
 				if ac.Kind == "ghost" || ac.Kind == "ghostpre" {
 					i := strings.Index(body, "=")
